@@ -3,6 +3,7 @@ package mon
 import (
 	"bytes"
 	"fmt"
+	"github.com/cockroachdb/errors/errorspb"
 	"strings"
 
 	"github.com/cockroachdb/errors"
@@ -211,6 +212,48 @@ func runC04(c *core.Ctx) {
 			} else {
 				c.Count("two-intermediary-histories", 1)
 				checkFinal(o2, fmt.Sprintf("U.U(%v).K", sub2))
+			}
+		}
+		// a message from a NEWER sender: wrappers of the forgotten types carry a message-type value this
+		// version does not define; the unknowing process must hand it on as received
+		// (checked where the process knows NONE of the types: a known container re-derives its own wire
+		// message and safe details from what it decoded, see the exemption above)
+		if len(sub) == len(keys) {
+			if p := core.Try(func() {
+				enc, _ := sim.Unmarshal(enc0)
+				forget := map[string]bool{}
+				for _, k := range sub {
+					forget[k] = true
+				}
+				n := 0
+				var rec func(e *errorspb.EncodedError)
+				rec = func(e *errorspb.EncodedError) {
+					if w := e.GetWrapper(); w != nil {
+						if forget[w.Details.ErrorTypeMark.FamilyName] {
+							w.MessageType = errorspb.MessageType([]int32{2, 7, -1}[(si+n)%3])
+							n++
+						}
+						rec(&w.Cause)
+					} else if l := e.GetLeaf(); l != nil {
+						for _, k := range l.MultierrorCauses {
+							rec(k)
+						}
+					}
+				}
+				rec(&enc)
+				if n == 0 {
+					return
+				}
+				in := sim.Marshal(enc)
+				c.Count("future-message-type-relays", 1)
+				if fwd := (sim.Proc{Forget: sub}).Receive(in, nil); !bytes.Equal(fwd, in) {
+					e1, _ := sim.Unmarshal(in)
+					e2, _ := sim.Unmarshal(fwd)
+					c.Violate("reencode-future-message-type/"+driftOwner(&e1, &e2), "an unknowing process does not re-emit a message whose wrappers carry a message-type value it does not define",
+						fmt.Sprintf("%s\nforgot %v", t, sub))
+				}
+			}); p != nil {
+				c.Violate("panic/future-message-type", "an unknowing process panicked on an undefined message-type value", fmt.Sprintf("%s\nforgot %v\n%v", t, sub, p))
 			}
 		}
 		// cross-check of the harness: hook-free renaming simulation
